@@ -1,9 +1,140 @@
-(* C06 — property theorems only (ZixTree: balanced sorted (multi)set with stable iterators). *)
-From Coq Require Import ZArith List Bool.
-From Zix Require Import AvlSpec AvlModel AvlProofs.
+(* C06 — property theorems only (ZixTree: balanced sorted (multi)set with stable bidirectional
+   iterators).  Model: AvlModel.v (functional model of /repo/src/tree.c); spec: AvlSpec.v (a list of
+   (id, data) sorted non-strictly by rank; stable insertion; removal by id).
+
+   Every theorem quantifies over
+     rank : elt -> Z      the comparator (any total preorder induced by an integer rank),
+     dup                  the duplicate policy given to zix_tree_new,
+     ops, o               an arbitrary history of insert/remove/find calls and an arbitrary
+                          allocation oracle (which node allocations fail),
+   [reach rank dup ops o] being the container state after that history.
+
+   [avl t] (AvlProofs.v):  at every node  stored balance = height right - height left  and
+   -1 <= balance <= 1.     [abs st] = (in-order listing of (id, data), serial number of next insert).
+
+   NOT modelled at pointer level: zix_tree_iter_next/prev walk parent pointers in C; the model steps
+   on the functional tree (tnext/tprev: right/left subtree's extreme, else nearest ancestor entered
+   from the other side).  See props/C06.json. *)
+From Coq Require Import ZArith List Bool Permutation.
+From Zix Require Import AvlSpec AvlModel AvlProofs AvlProofsHeight AvlProofsRemove AvlProofsState
+  AvlProofsIter AvlProofsTop.
 Import ListNotations.
 Local Open Scope Z_scope.
 
-Theorem avl_find_cost : forall rank x t, Z.of_nat (length (snd (find rank x t))) <= height t.
-Proof. exact find_cost. Qed.
+(* every reachable state: BST order (the in-order listing is sorted), every stored balance factor is
+   the height difference and within {-1,0,1}, the size field counts the nodes, identities are
+   unique; when duplicates are refused no two stored elements compare equal *)
+Theorem avl_inv_reachable : forall rank dup ops o,
+  let st := reach rank dup ops o in
+  sorted rank (elems (root st)) /\ avl (root st) /\ size st = count (root st) /\
+  NoDup (ids (root st)) /\ (dup = false -> rank_inj rank (elems (root st))).
+Proof. exact reach_inv_explicit. Qed.
+Print Assumptions avl_inv_reachable.
+
+(* zix_tree_insert after any history, with any allocation outcome: status, *ti, new listing and
+   oracle rest are those of the abstract sorted multiset — EXISTS + the existing element when
+   duplicates are refused, NO_MEM + unchanged listing when the allocation fails, otherwise SUCCESS,
+   iterator at the new element, listing = stable sorted insertion (new element after its equals) *)
+Theorem avl_insert_refines : forall rank dup ops o x o1,
+  let st := reach rank dup ops o in
+  let '(s, it, st', o2, _) := insert rank dup x o1 st in
+  (s, it, abs st', o2) = sp_insert rank dup x o1 (abs st).
+Proof. exact reach_insert. Qed.
+Print Assumptions avl_insert_refines.
+
+(* zix_tree_remove after any history: the listing afterwards is the listing before minus the node
+   with that identity (sremove = filter: relative order and data of every other element unchanged);
+   the destroy log is exactly that element *)
+Theorem avl_remove_refines : forall rank dup ops o id,
+  let st := reach rank dup ops o in
+  let '(s, st', dl, _) := remove id st in
+  (s, abs st', dl) = sp_remove id (abs st).
+Proof. exact reach_remove. Qed.
+Print Assumptions avl_remove_refines.
+
+(* iterator stability: the node with identity j still exists and carries the same data after any
+   insertion and after the removal of any other node *)
+Theorem avl_iter_stable_insert : forall rank dup ops o x o1 j,
+  let st := reach rank dup ops o in
+  let '(_, _, st', _, _) := insert rank dup x o1 st in
+  In j (ids (root st)) -> lookup j (root st') = lookup j (root st).
+Proof. exact reach_stable_insert. Qed.
+Print Assumptions avl_iter_stable_insert.
+
+Theorem avl_iter_stable_remove : forall rank dup ops o id j,
+  let st := reach rank dup ops o in
+  let '(_, st', _, _) := remove id st in
+  j <> id -> lookup j (root st') = lookup j (root st).
+Proof. exact reach_stable_remove. Qed.
+Print Assumptions avl_iter_stable_remove.
+
+(* zix_tree_find: NOT_FOUND / null iterator iff no stored element compares equal; otherwise
+   SUCCESS and a stored element comparing equal (THE one of the spec when duplicates are refused) *)
+Theorem avl_find_refines : forall rank dup ops o x,
+  let st := reach rank dup ops o in
+  let '(s, it, lg) := tfind rank x st in
+  (it = None <-> sfind rank x (elems (root st)) = None) /\
+  (s = NOT_FOUND <-> it = None) /\ (s = SUCCESS <-> it <> None) /\
+  (forall y, it = Some y -> In y (elems (root st)) /\ irank rank y = rank x) /\
+  (dup = false -> it = sfind rank x (elems (root st))) /\
+  Z.of_nat (length lg) <= height (root st).
+Proof. exact reach_find. Qed.
+Print Assumptions avl_find_refines.
+
+(* forward iteration from begin visits exactly the listing, backward iteration from rbegin its
+   reverse; begin/rbegin/next/prev are first/last/neighbours in the listing *)
+Theorem avl_iter_fwd_bwd : forall rank dup ops o,
+  let st := reach rank dup ops o in
+  let l := elems (root st) in
+  walk_fwd (root st) = map fst l /\ walk_bwd (root st) = rev (map fst l) /\
+  leftmost (root st) = sbegin l /\ rightmost (root st) = srbegin l /\
+  (forall id, In id (map fst l) -> tnext id (root st) = snext id l /\ tprev id (root st) = sprev id l).
+Proof. exact reach_iter. Qed.
+Print Assumptions avl_iter_fwd_bwd.
+
+(* destroy runs exactly once for each stored element: the destroy calls of all removals of a
+   history plus those of zix_tree_free are a permutation of the successfully inserted elements,
+   whose identities are pairwise distinct *)
+Theorem avl_destroy_once : forall rank dup ops o,
+  let '(fin, evs) := run rank dup ops o init in
+  Permutation (destroyed_of evs ++ free_log (root fin)) (inserted_of ops evs) /\
+  NoDup (map fst (inserted_of ops evs)).
+Proof. exact reach_destroy. Qed.
+Print Assumptions avl_destroy_once.
+
+(* balance: fib (h+2) <= n+1 for the height h and size n of every reachable tree
+   (h <= log_phi(n+2) - 0.32.. < 1.4405 log2 (n+2)) — and for every AVL-shaped tree *)
+Theorem avl_height_fib : forall rank dup ops o,
+  let st := reach rank dup ops o in
+  Z.of_nat (fib (heightn (root st) + 2)) <= size st + 1.
+Proof. exact reach_height_fib. Qed.
+Print Assumptions avl_height_fib.
+
+Theorem avl_height_fib_any : forall t, avl t -> Z.of_nat (fib (heightn t + 2)) <= count t + 1.
+Proof. exact avl_fib. Qed.
+Print Assumptions avl_height_fib_any.
+
+(* a find makes at most height-many comparisons, hence fib (comparisons + 2) <= size + 1 *)
+Theorem avl_find_cost : forall rank dup ops o x,
+  let st := reach rank dup ops o in
+  let n := length (snd (tfind rank x st)) in
+  Z.of_nat n <= height (root st) /\ Z.of_nat (fib (n + 2)) <= size st + 1.
+Proof. exact reach_find_cost. Qed.
 Print Assumptions avl_find_cost.
+
+(* whole histories: the listing after any history is the one the abstract sorted multiset has *)
+Theorem avl_history_refines : forall rank dup ops o,
+  abs (reach rank dup ops o) = srun rank dup ops o ([], 0).
+Proof. exact reach_history. Qed.
+Print Assumptions avl_history_refines.
+
+(* non-vacuity: a concrete history (keys with duplicates, a failed allocation, removals of a
+   two-child root, of a leaf and of an absent id) and what the theorems say about it *)
+Example avl_example :
+  let rank := (fun e : elt => fst e) in
+  let ops := [OIns (5, 0); OIns (3, 1); OIns (8, 2); OIns (5, 3); OIns (9, 4); OIns (5, 5);
+              ORem 0; OFind (5, 0); ORem 2; ORem 77] in
+  abs (reach rank true ops [true; true; true; true; false]) =
+    ([(1, (3, 1)); (3, (5, 3)); (5, (5, 5))], 6) /\
+  height (root (reach rank true ops [true; true; true; true; false])) = 2.
+Proof. vm_compute. split; reflexivity. Qed.
